@@ -9,6 +9,31 @@ use std::path::{Path, PathBuf};
 
 use vh_ls::*;
 
+/// documents of `outside` live in a sibling directory of the workspace root (a library only once configured)
+fn lib_dir(root: &Path) -> PathBuf {
+    let name = format!("{}_lib", root.file_name().unwrap().to_string_lossy());
+    root.parent().unwrap().join(name)
+}
+
+fn doc_path(root: &Path, u: &str, outside: &[String]) -> PathBuf {
+    if outside.iter().any(|x| x == u) {
+        lib_dir(root).join(format!("{u}.lua"))
+    } else {
+        root.join(format!("{u}.lua"))
+    }
+}
+
+fn write_config(root: &Path, reindex: bool, lib: bool) {
+    let mut ws = serde_json::Map::new();
+    if reindex {
+        ws.insert("enableReindex".into(), json!(true));
+    }
+    if lib {
+        ws.insert("library".into(), json!([lib_dir(root).to_string_lossy()]));
+    }
+    std::fs::write(root.join(".emmyrc.json"), json!({"workspace": ws}).to_string() + "\n").unwrap();
+}
+
 fn text_of(id: &str) -> String {
     format!("local {id} = 1")
 }
@@ -44,7 +69,7 @@ struct Real {
     publ: BTreeMap<String, String>,
 }
 
-fn observe(s: &Session, root: &Path, uris: &[String]) -> Option<Real> {
+fn observe(s: &Session, root: &Path, uris: &[String], outside: &[String]) -> Option<Real> {
     let (_, _, open) = s.wm_state().ok()?;
     let mut r = Real {
         open: BTreeMap::new(),
@@ -52,7 +77,7 @@ fn observe(s: &Session, root: &Path, uris: &[String]) -> Option<Real> {
         publ: BTreeMap::new(),
     };
     for u in uris {
-        let uri = uri_of(&root.join(format!("{u}.lua")));
+        let uri = uri_of(&doc_path(root.as_ref(), u.as_ref(), outside.as_ref()));
         let o = open
             .get(&uri.to_string())
             .map(|t| id_of_text(t))
@@ -95,8 +120,8 @@ fn same(st: &Value, r: &Real) -> Option<String> {
     None
 }
 
-fn set_disk(root: &Path, u: &str, t: &str) {
-    let p = root.join(format!("{u}.lua"));
+fn set_disk(root: &Path, u: &str, t: &str, outside: &[String]) {
+    let p = doc_path(root.as_ref(), u.as_ref(), outside.as_ref());
     if t == "absent" {
         let _ = std::fs::remove_file(p);
     } else {
@@ -121,11 +146,13 @@ fn main() {
         let _ = std::fs::remove_dir_all(&root);
         std::fs::create_dir_all(&root).unwrap();
         let reindex = sc["reindex"].as_bool().unwrap_or(false);
-        std::fs::write(
-            root.join(".emmyrc.json"),
-            if reindex { "{\"workspace\": {\"enableReindex\": true}}\n" } else { "{}\n" },
-        )
-        .unwrap();
+        let outside: Vec<String> = sc["outside"]
+            .as_array()
+            .map(|v| v.iter().filter_map(|x| x.as_str().map(|s| s.to_string())).collect())
+            .unwrap_or_default();
+        let _ = std::fs::remove_dir_all(lib_dir(&root));
+        std::fs::create_dir_all(lib_dir(&root)).unwrap();
+        write_config(&root, reindex, false);
         let st0 = &hist[0]["st"];
         let mut uris: Vec<String> = st0["vfs"].as_object().unwrap().keys().cloned().collect();
         uris.sort();
@@ -143,7 +170,7 @@ fn main() {
             disk0.insert(u, init);
         }
         for (u, t) in &disk0 {
-            set_disk(&root, u, t);
+            set_disk(&root, u, t, &outside);
         }
         let init_open: Vec<String> = sc["initOpen"]
             .as_array()
@@ -151,9 +178,11 @@ fn main() {
             .unwrap_or_default();
         let root2 = root.clone();
         let uris2 = uris.clone();
+        let outside2 = outside.clone();
         let out = run(async move {
             let root = root2;
             let uris = uris2;
+            let outside = outside2;
             let mut emmyrc = emmylua_code_analysis::Emmyrc::default();
             emmyrc.workspace.enable_reindex = reindex;
             let mut s = Session::start(SessionOpts {
@@ -165,7 +194,7 @@ fn main() {
             .await;
             // documents that are already open when the behaviour starts: opened, analysed and diagnosed freely
             for u in init_open.iter() {
-                let uri = uri_of(&root.join(format!("{u}.lua")));
+                let uri = uri_of(&doc_path(root.as_ref(), u.as_ref(), outside.as_ref()));
                 let (m, p) = did_open(&uri, &text_of("t1"), 1);
                 s.notify(&m, p).await;
             }
@@ -188,7 +217,7 @@ fn main() {
                     "deliver" => {
                         let kind = h["kind"].as_str().unwrap();
                         let u = h["uri"].as_str().unwrap_or("none");
-                        let uri = uri_of(&root.join(format!("{u}.lua")));
+                        let uri = uri_of(&doc_path(root.as_ref(), u.as_ref(), outside.as_ref()));
                         let t = h["text"].as_str().unwrap_or("none");
                         let (m, p) = match kind {
                             "open" => did_open(&uri, &text_of(t), 1),
@@ -197,7 +226,11 @@ fn main() {
                             "save" => did_save(&uri),
                             "watch" => did_change_watched(&[(uri.clone(), 2)]),
                             "wdel" => did_change_watched(&[(uri.clone(), 3)]),
-                            "cfg" => did_change_watched(&[(uri_of(&root.join(".emmyrc.json")), 2)]),
+                            "cfg" => {
+                                // the config on disk changes first, then the client reports the change
+                                write_config(&root, reindex, h["lib"].as_bool().unwrap_or(false));
+                                did_change_watched(&[(uri_of(&root.join(".emmyrc.json")), 2)])
+                            }
                             k => panic!("kind {k}"),
                         };
                         s.notify(&m, p).await;
@@ -249,7 +282,7 @@ fn main() {
                         s.advance_ms(h["ms"].as_u64().unwrap()).await;
                     }
                     "disk" => {
-                        set_disk(&root, h["uri"].as_str().unwrap(), h["text"].as_str().unwrap());
+                        set_disk(&root, h["uri"].as_str().unwrap(), h["text"].as_str().unwrap(), &outside);
                     }
                     x => panic!("action {x}"),
                 }
@@ -263,7 +296,7 @@ fn main() {
                     map.insert(*si, *ri);
                 }
                 if diverged.is_none() {
-                    match observe(&s, &root, &uris) {
+                    match observe(&s, &root, &uris, &outside) {
                         None => {} // a lock is write-held across the step: not observable now
                         Some(r) => {
                             if let Some(why) = same(&h["st"], &r) {
@@ -279,7 +312,7 @@ fn main() {
             for _ in 0..6 {
                 s.advance_ms(1000).await;
             }
-            let fin = observe(&s, &root, &uris);
+            let fin = observe(&s, &root, &uris, &outside);
             (diverged, steps, leftover, fin.map(|r| real_json(&r)), take_panics())
         });
         let (diverged, steps, leftover, fin, panics) = out;
